@@ -5,6 +5,7 @@ cd "$(dirname "$0")"
 export CARGO_NET_OFFLINE=true CARGO_TARGET_DIR="$PWD/.cache/target"
 python3 tools/extract_consts.py
 python3 tools/extract_shapes.py
+python3 tools/extract_sites.py
 (cd lean && lake build GgrsModel ggrs_model)
 [ -f harness/Cargo.lock ] || cp /repo/Cargo.lock harness/Cargo.lock
 (cd harness && cargo build --offline --quiet --bins)
